@@ -246,6 +246,11 @@ func (u *Universe) NewManifest(rng *rand.Rand, m *Model, repo string) MT {
 		ix.Manifests = []ocispec.Descriptor{desc(MTImage, []byte(fmt.Sprintf("never pushed manifest %d", u.nonce)))}
 		mk("missing-child", MTIndex, ix)
 	}
+	if (out.MediaType == MTImage || out.MediaType == MTIndex) && k < 12 && rng.IntN(12) == 0 {
+		// a complete manifest followed by something: not a JSON document any more, whatever follows
+		out.Data = append(out.Data, pick(rng, []string{"}", "]", " }", "\n]", "}}", "] and more", "{}", "null", " x", ",", "\n\n}\n"})...)
+		out.Kind += "+trailer"
+	}
 	out.Digest = Digest(out.Data)
 	u.Manifests = append(u.Manifests, out)
 	if len(u.Manifests) > 40 {
